@@ -793,9 +793,10 @@ void list_output_riscv(
 
     if (count == 2)
     {
+      // A compressed instruction is the 16-bit halfword at start only.
       fprintf(asm_context->list, "0x%08x: 0x%04x     %s\n",
         start,
-        opcode,
+        memory->read16(start),
         instruction);
     }
       else
@@ -839,7 +840,7 @@ void list_output_riscv(
     }
 #endif
 
-    start += 4;
+    start += (count == 2) ? 2 : 4;
   }
 }
 
